@@ -3,13 +3,13 @@
    section/bytes.go:ToBytes.  Bytes are ASCII-level: the code's unicode.IsSpace /
    IsLetter are modelled on single bytes (bytes >= 128 count as letters). *)
 From GP Require Export Bytes.
-From Coq Require Import String.
 
 Definition AT : N := 64.      (* '@' *)
 Definition HASH : N := 35.    (* '#' *)
 Definition MINUS : N := 45.
 Definition PLUS : N := 43.
 Definition SP : N := 32.
+Local Open Scope nat_scope.
 
 Definition is_space (c : N) : bool :=
   N.eqb c 32 || (N.leb 9 c && N.leb c 13).
@@ -112,63 +112,71 @@ Record change := {
   c_comments : list bytes     (* description *)
 }.
 
-(* readMeta: lines up to the "@@" line *)
-Fixpoint read_meta (its : list item) : list line * option (nat * list item) :=
-  match its with
-  | [] => ([], None)
-  | it :: its' =>
-      if beq (l_text (i_line it)) atat then ([], Some (l_off (i_line it), its'))
-      else let (m, r) := read_meta its' in (i_line it :: m, r)
+(* The splitter as a state machine over the non-comment lines.  Each step is one
+   programSplitter.next(); the states are the three loops of readChange:
+     SHeader : at the top of readProgram, about to read a header
+     SMeta c : inside readMeta of change c
+     SPatch c: inside readPatch of change c *)
+Inductive sstate :=
+| SHeader
+| SMeta (c : change)
+| SPatch (c : change).
+
+Record sacc := { a_done : list change; a_errs : list serr; a_state : sstate }.
+
+Definition starts_with_at (t : bytes) : bool :=
+  match t with c :: _ => N.eqb c AT | [] => false end.
+
+Definition open_change (a : sacc) (it : item) : sacc :=
+  let (nm, e) := read_name (i_line it) in
+  {| a_done := a_done a; a_errs := a_errs a ++ e;
+     a_state := SMeta {| c_header := l_off (i_line it); c_name := nm; c_meta := [];
+                         c_at := None; c_patch := []; c_comments := i_comments it |} |}.
+
+Definition sstep (a : sacc) (it : item) : sacc :=
+  let t := l_text (i_line it) in
+  match a_state a with
+  | SHeader =>
+      (* blank lines before a header are skipped *)
+      if is_blank t then a else open_change a it
+  | SMeta c =>
+      if beq t atat
+      then {| a_done := a_done a; a_errs := a_errs a;
+              a_state := SPatch {| c_header := c_header c; c_name := c_name c; c_meta := c_meta c;
+                                   c_at := Some (l_off (i_line it)); c_patch := [];
+                                   c_comments := c_comments c |} |}
+      else {| a_done := a_done a; a_errs := a_errs a;
+              a_state := SMeta {| c_header := c_header c; c_name := c_name c;
+                                  c_meta := c_meta c ++ [i_line it];
+                                  c_at := None; c_patch := []; c_comments := c_comments c |} |}
+  | SPatch c =>
+      if starts_with_at t
+      then open_change {| a_done := a_done a ++ [c]; a_errs := a_errs a; a_state := SHeader |} it
+      else {| a_done := a_done a; a_errs := a_errs a;
+              a_state := SPatch {| c_header := c_header c; c_name := c_name c; c_meta := c_meta c;
+                                   c_at := c_at c; c_patch := c_patch c ++ [i_line it];
+                                   c_comments := c_comments c |} |}
   end.
 
-(* readPatch: lines until one that starts with '@' *)
-Fixpoint read_patch (its : list item) : list line * list item :=
-  match its with
-  | [] => ([], [])
-  | it :: its' =>
-      match l_text (i_line it) with
-      | c :: _ => if N.eqb c AT then ([], its)
-                  else let (p, r) := read_patch its' in (i_line it :: p, r)
-      | [] => let (p, r) := read_patch its' in (i_line it :: p, r)
-      end
+(* end of file *)
+Definition sfinish (eof_off : nat) (a : sacc) : list change * list serr :=
+  match a_state a with
+  | SHeader => (a_done a, a_errs a)
+  | SMeta c =>
+      (* readMeta hits EOF: error, the section is dropped; readPatch then finds nothing *)
+      (a_done a ++ [{| c_header := c_header c; c_name := c_name c; c_meta := [];
+                       c_at := None; c_patch := []; c_comments := c_comments c |}],
+       a_errs a ++ [ENoMetaEnd eof_off])
+  | SPatch c => (a_done a ++ [c], a_errs a)
   end.
 
-(* blank lines before a header are skipped (fix: "skip blank lines before a header") *)
-Fixpoint skip_blank (its : list item) : list item :=
-  match its with
-  | it :: its' => if is_blank (l_text (i_line it)) then skip_blank its' else its
-  | [] => []
-  end.
+Definition a0 : sacc := {| a_done := []; a_errs := []; a_state := SHeader |}.
 
-(* readProgram; fuel = number of items (each change consumes at least its header) *)
-Fixpoint read_changes (fuel : nat) (eof_off : nat) (its : list item) : list change * list serr :=
-  match fuel with
-  | O => ([], [])
-  | S fuel' =>
-      match skip_blank its with
-      | [] => ([], [])
-      | hd :: rest =>
-          let (nm, e1) := read_name (i_line hd) in
-          let (meta, r) := read_meta rest in
-          match r with
-          | None =>
-              (* EOF inside the metavariable section *)
-              ([{| c_header := l_off (i_line hd); c_name := nm; c_meta := [];
-                   c_at := None; c_patch := []; c_comments := i_comments hd |}],
-               e1 ++ [ENoMetaEnd eof_off])
-          | Some (at_off, rest') =>
-              let (patch, rest'') := read_patch rest' in
-              let (cs, es) := read_changes fuel' eof_off rest'' in
-              ({| c_header := l_off (i_line hd); c_name := nm; c_meta := meta;
-                  c_at := Some at_off; c_patch := patch; c_comments := i_comments hd |} :: cs,
-               e1 ++ es)
-          end
-      end
-  end.
+Definition read_changes (eof_off : nat) (its : list item) : list change * list serr :=
+  sfinish eof_off (fold_left sstep its a0).
 
 Definition split (content : bytes) : list change * list serr :=
-  let its := items content in
-  let (cs, es) := read_changes (S (length its)) (length content) its in
+  let (cs, es) := read_changes (length content) (items content) in
   match cs with
   | [] => ([], es ++ [ENoChange (length content)])
   | _ => (cs, es)
